@@ -51,6 +51,11 @@ type session struct {
 	manifest       *journal.Writer
 	manifestWriter storage.Writer
 	manifestFd     storage.FileDesc
+	// manifestDirty is set when appending an edit to the manifest failed: the
+	// edit may or may not have reached the file and the writer may be left
+	// in its error state, so the manifest must be replaced by a fresh
+	// snapshot before it is relied upon again; need external synchronization.
+	manifestDirty bool
 
 	stCompPtrs  []internalKey // compaction pointers; need external synchronization
 	stVersion   *version      // current version
@@ -231,7 +236,7 @@ func (s *session) commit(r *sessionRecord, trivial bool) (err error) {
 		r.resetAddedTables()
 		r.resetDeletedTables()
 		err = s.newManifest(r, nv)
-	} else if s.manifest.Size() >= s.o.GetMaxManifestFileSize() {
+	} else if s.manifestDirty || s.manifest.Size() >= s.o.GetMaxManifestFileSize() {
 		// pass a fresh sessionRecord to avoid over-reference table file, but
 		// carry over the states recorded by r, since they won't be written
 		// anywhere else.
@@ -251,6 +256,9 @@ func (s *session) commit(r *sessionRecord, trivial bool) (err error) {
 		err = s.newManifest(nr, nv)
 	} else {
 		err = s.flushManifest(r)
+		if err != nil {
+			s.manifestDirty = true
+		}
 	}
 
 	// finally, apply new version if no error rise
